@@ -61,6 +61,25 @@ Theorem C10_view_is_complete_and_stable_snapshot : forall acts1 acts2 v,
   (forall f, In f (indexes st1) -> In (f_uid f) (disk st2)).
 Proof. intros acts1 acts2 v. exact (view_snapshot capdb merge acts1 acts2 v). Qed.
 
+(* The property in one statement: whatever happens between opening a view and releasing it, AllStreams
+   through the view returns every stream of every capture processed before it was opened, exactly once, in the
+   version those captures give it -- and the files it reads are still there. *)
+Theorem C10_view_answers_complete_exactly_once_newest_and_constant : forall acts1 acts2 v,
+  let st1 := run false acts1 in
+  let st2 := run false (acts1 ++ AView v :: acts2) in
+  view_of v (views st1) = None -> (forall a, In a acts2 -> a <> ARelease v) ->
+  exists s, view_of v (views st2) = Some s /\
+    (forall e, In e (all_streams s) ->
+       in_caps capdb (processed st1) (e_flow e) = true /\
+       e_ver e = total_bytes capdb (processed st1) (e_flow e)) /\
+    (forall fl, in_caps capdb (processed st1) fl = true -> exists e, In e (all_streams s) /\ e_flow e = fl) /\
+    NoDup (map e_flow (all_streams s)) /\
+    (forall f, In f s -> In (f_uid f) (disk st2)).
+Proof.
+  intros acts1 acts2 v.
+  exact (view_answers capdb merge merge_lookup merge_sub merge_nodup acts1 acts2 v).
+Qed.
+
 End C10.
 
 (* The hypotheses are satisfiable: the model's own merge (newest entry of every id) meets them. *)
@@ -81,6 +100,23 @@ Theorem C10_extracted_model_service_list_complete : forall capdb acts,
 Proof.
   intros capdb acts.
   exact (C10_service_list_is_newest_version_of_everything_processed capdb merge_ents merge_ents_lookup merge_ents_sub false acts).
+Qed.
+
+Theorem C10_extracted_model_view_answers : forall capdb acts1 acts2 v,
+  let st1 := fold_left (step_impl capdb) acts1 init in
+  let st2 := fold_left (step_impl capdb) (acts1 ++ AView v :: acts2) init in
+  view_of v (views st1) = None -> (forall a, In a acts2 -> a <> ARelease v) ->
+  exists s, view_of v (views st2) = Some s /\
+    (forall e, In e (all_streams s) ->
+       in_caps capdb (processed st1) (e_flow e) = true /\
+       e_ver e = total_bytes capdb (processed st1) (e_flow e)) /\
+    (forall fl, in_caps capdb (processed st1) fl = true -> exists e, In e (all_streams s) /\ e_flow e = fl) /\
+    NoDup (map e_flow (all_streams s)) /\
+    (forall f, In f s -> In (f_uid f) (disk st2)).
+Proof.
+  intros capdb acts1 acts2 v.
+  exact (C10_view_answers_complete_exactly_once_newest_and_constant capdb merge_ents
+           merge_ents_lookup merge_ents_sub merge_ents_nodup acts1 acts2 v).
 Qed.
 
 (* The code before /repo 7300a1b (View.fetch tested `len(v.indexes) != 0`): a view opened on an empty
